@@ -47,7 +47,7 @@ def _tlc_table(ctx, module, env, name, timeout, what, heap=None):
 def design(ctx):
     cfg = ctx.pick("RefreshTimer_mc.cfg", "RefreshTimer_mc_thorough.cfg")
     mc = tlc.run(ctx, "RefreshTimerMC", cfg, workers=ctx.pick(4, 8), coverage=True,
-                 timeout=ctx.pick(900, 3000), heap=ctx.pick(None, "12g"))
+                 timeout=ctx.pick(900, 3000))
     if not mc.ok:
         raise InfraError("spec-level counterexample / failure in RefreshTimerMC (%s): %s\n%s" % (
             cfg, mc.summary(), common.tail(mc.out, 30)))
@@ -104,7 +104,7 @@ def queries(ctx, tb, menu_path):
         k, p, off = c
         res = os.path.join(d, "res%d.json" % k)
         _tlc_table(ctx, "TimerQueries", {"VERIF_SCHEDS": scheds, "VERIF_TRACE": p, "VERIF_OUT": res},
-                   "tlc_queries_%d" % k, ctx.pick(900, 3000), "query validation chunk %d" % k, heap="4g")
+                   "tlc_queries_%d" % k, ctx.pick(900, 3000), "query validation chunk %d" % k, heap="3g")
         return off, _load_json(res, "query validation")
 
     with ThreadPoolExecutor(max_workers=ctx.pick(2, 4)) as ex:
@@ -213,7 +213,7 @@ def grammar(ctx, tb, alpha, maxlen):
     table = os.path.join(d, "valid.json")
     _tlc_table(ctx, "TimerTokens", {"VERIF_OUT": table, "VERIF_ALPHA": alpha, "VERIF_MAXLEN": str(maxlen)},
                "tlc_tokens_%s%d" % (alpha, maxlen), ctx.pick(900, 3000), "token table %s/%d" % (alpha, maxlen),
-               heap="8g")
+               heap="4g")
     tab = _load_json(table, "token table")
     alphabet = tab["alphabet"]
     valid = {tuple(v) for v in tab["valid"]}
